@@ -7,6 +7,7 @@ From Curies.model Require Import Str PyData Trie Conv Query Mutate Reconcile Hea
 From Curies.proofs Require Import StrFacts MutateFacts HeapFacts.
 From Curies.model Require Import CheckR CheckH.
 From Curies.proofs Require Import PModelH.
+From Curies.proofs Require Import HeapSimFacts.
 
 (* chain: no pre-existing cell is written, the result owns only new cells *)
 Theorem C10_chain : forall fold_c h Cs sens h' R, h_chain fold_c h Cs sens = Val (h', R) ->
@@ -71,3 +72,32 @@ Theorem C10_P_model : forall (k : rcase) (cs : list conv) (fol : list (record * 
   input_convs k = Val cs -> P_C10 (model_hobs k cs fol disc) = true.
 Proof. exact P_C10_model. Qed.
 Print Assumptions C10_P_model.
+
+(* The object-level model computes the value-level derivations that C09 / C11 / C12 are proved about -- for all five operations,
+   in the setting of the run (model_hobs: the heap holds the records of the input converters, laid out one after the other):
+   same converter (all fields) or same error for get_subconverter, remap_curie_prefixes, remap_uri_prefixes and rewire
+   (h_outcome = the strict constructor applied to the records the object-level result holds); same records / same error for chain *)
+Theorem C10_derive_refines : forall k cs, input_convs k = Val cs ->
+  let h0 := concat (map recs cs) in let Cs := layout (map recs cs) 0 in
+  laid h0 cs Cs /\
+  derive_code (h_outcome (h_derive (fold_of (rc_fold k)) k h0 Cs cs)) = derive_code (derive k cs) /\
+  match rc_op k with
+  | DChain _ =>
+      match derive k cs, h_derive (fold_of (rc_fold k)) k h0 Cs cs with
+      | Val ca, Val (h', R) => recs ca = view h' R /\ MutateFacts.swf ca
+      | Raise e, Raise e' => e = e'
+      | _, _ => False
+      end
+  | _ => h_outcome (h_derive (fold_of (rc_fold k)) k h0 Cs cs) = derive k cs
+  end.
+Proof. exact model_hobs_derive. Qed.
+Print Assumptions C10_derive_refines.
+(* the fresh cells of a sub-converter hold exactly the kept records; those of a remapping exactly what the value-level function computes *)
+Theorem C10_sub_view : forall h C P h' R, valid h C -> h_sub h C P = (h', R) ->
+  view h' R = filter (fun r => existsb (fun p => mem p P) (all_prefixes r)) (view h C).
+Proof. exact h_sub_view. Qed.
+Print Assumptions C10_sub_view.
+Theorem C10_remap_view : forall h C f h' R, valid h C -> length (f (view h C)) = length C -> h_remap h C f = (h', R) ->
+  view h' R = f (view h C).
+Proof. exact h_remap_view. Qed.
+Print Assumptions C10_remap_view.
